@@ -586,3 +586,50 @@ Proof.
   intros Hf; cbn [step]; rewrite Hf; eexists; (split; [reflexivity|]); cbn; eapply find_a_upd; eassumption.
 Qed.
 
+(* ---------------------------------------------------------- non-vacuity *)
+Definition ex_tcp_trace : list label :=
+  [StInvoke 0; StAtomic 0; Notify; SCheck; SAcceptOk 1; SSpawn; WCheck 1; WSetDl 1; Req 1; HEnter 1;
+   SdInvoke 0; SdAtomic 0; SCheck; Reply 1; HExit 1; WCheck 1; WClose 1; WFinish 1; SWaitDone;
+   SdReturn 0 ResNil; SReturn RNil].
+Example ex_tcp_run :
+  exists s, run (init TCP) ex_tcp_trace = Some s /\ In (0, SdDone ResNil) (sds s) /\
+            serve s = SReturned RNil /\ fatal s = false /\ shut s = true.
+Proof. match goal with |- exists s, ?r = Some s /\ _ => remember r as rr eqn:E; vm_compute in E; subst rr end. eexists. split; [reflexivity|]. cbn. auto. Qed.
+
+Definition ex_udp_trace : list label :=
+  [StInvoke 0; StAtomic 0; Notify; SCheck; SSetDlL; SPacket 7; SSpawn; SCheck; SSetDlL; HEnter 7;
+   SdInvoke 3; SdAtomic 3; SReadErr; SErrCheck; SdCtx 3; SdReturn 3 ResCtx; Reply 7; HExit 7; WFinish 7; SWaitDone; SReturn RNil].
+Example ex_udp_run :
+  exists s, run (init UDP) ex_udp_trace = Some s /\ In (3, SdDone ResCtx) (sds s) /\ serve s = SReturned RNil.
+Proof. match goal with |- exists s, ?r = Some s /\ _ => remember r as rr eqn:E; vm_compute in E; subst rr end. eexists. split; [reflexivity|]. cbn. auto. Qed.
+
+(* a reader blocked when Shutdown runs; a Shutdown caller waiting *)
+Definition ex_blocked : list label :=
+  [StInvoke 0; StAtomic 0; Notify; SCheck; SAcceptOk 1; SSpawn; SCheck; WCheck 1; WSetDl 1; SdInvoke 0; SdAtomic 0].
+Example ex_blocked_run :
+  exists s, run (init TCP) ex_blocked = Some s /\ ph s = Stopping /\ shut s = false /\
+            In (0, SdWaiting) (sds s) /\ serve s = SAccept /\
+            exists w, In w (workers s) /\ w_pc w = CRead.
+Proof. match goal with |- exists s, ?r = Some s /\ _ => remember r as rr eqn:E; vm_compute in E; subst rr end. eexists. split; [reflexivity|]. cbn. repeat split; auto. eexists. split; [left; reflexivity|reflexivity]. Qed.
+
+Example ex_double_start :
+  exists s, run (init TCP) [StInvoke 0; StAtomic 0; StInvoke 1] = Some s /\
+            ph s = Running /\ find_a 1 (sts s) = Some StPending.
+Proof. match goal with |- exists s, ?r = Some s /\ _ => remember r as rr eqn:E; vm_compute in E; subst rr end. eexists. split; [reflexivity|]. cbn. auto. Qed.
+
+Example ex_unstarted :
+  exists s, run (init UDP) [SdInvoke 5] = Some s /\ ph s <> Running /\ find_a 5 (sds s) = Some SdPending.
+Proof. match goal with |- exists s, ?r = Some s /\ _ => remember r as rr eqn:E; vm_compute in E; subst rr end. eexists. split; [reflexivity|]. cbn. split; [discriminate|reflexivity]. Qed.
+
+(* the acceptor: the observable projection of the run above is accepted, the
+   same events with the handler entered after Shutdown returned are not *)
+Example ex_accepts :
+  accepts TCP [StInvoke 0; Notify; SAcceptOk 1; Req 1; HEnter 1; SdInvoke 0; Reply 1; HExit 1; WClose 1;
+               SdReturn 0 ResNil; SReturn RNil] = inr (Some 1).
+Proof. vm_compute. reflexivity. Qed.
+Example ex_rejects :
+  accepts TCP [StInvoke 0; Notify; SAcceptOk 1; Req 1; SdInvoke 0; SdReturn 0 ResNil; HEnter 1] = inl 5.
+Proof. vm_compute. reflexivity. Qed.
+Example ex_rejects_early_return :
+  accepts UDP [StInvoke 0; Notify; SPacket 1; HEnter 1; SdInvoke 0; SdReturn 0 ResNil] = inl 5.
+Proof. vm_compute. reflexivity. Qed.
